@@ -17,11 +17,11 @@ import (
 // non-returning functions (fail-stop)
 
 var noReturnNames = map[string]bool{
-	"os.Exit":       true,
-	"log.Fatal":     true,
-	"log.Fatalf":    true,
-	"log.Panic":     true,
-	"log.Panicf":    true,
+	"os.Exit":        true,
+	"log.Fatal":      true,
+	"log.Fatalf":     true,
+	"log.Panic":      true,
+	"log.Panicf":     true,
 	"runtime.Goexit": true,
 }
 
